@@ -624,7 +624,9 @@ class DFA(fa.FA):
                         # Add trap state if needed
                         if trap_state is None:
                             trap_state = next(
-                                x for x in count(-1, -1) if x not in reachable_states
+                                x
+                                for x in count(-1, -1)
+                                if x not in reachable_states and x not in transitions
                             )
                             for trap_symbol in input_symbols:
                                 transition_back_map[trap_symbol][trap_state] = [
